@@ -441,7 +441,10 @@ C09(g, ev, g2) ==
                  PlacedOnCur(g, ev) /\ Ready(g, ch)),
      Cl("C09_c", ev.op \in {"await", "cancel"} /\ ev.res = "BLOCKED",
                  ~CtxEnded(Tick(g, ev), ev) /\ \E x \in Chans(g) : ~Ready(g, x)),
-     Cl("C09_e", known, ch \in Chans(g)) }
+     Cl("C09_e", known, ch \in Chans(g)),
+     \* "handed its channel once READY ... or returns promptly": a round-robin BIND call returns (HANG: its goroutine is parked on a
+     \* mutex for good; SPIN: it burns the CPU without returning or waiting)
+     Cl("C09_h", IsPickEv(ev) /\ IsRRBind(g, ev), ev.res \notin {"HANG", "SPIN"}) }
 
 MethodTable == {"/v/Bind=BIND:list", "/v/Bound=BOUND:list", "/v/Bound2=BOUND:list", "/v/Unbind=UNBIND:list"}
 C17(g, ev, g2) ==
@@ -481,7 +484,7 @@ Clauses(g, ev, g2) ==
 ClauseIds == {"C01_a", "C01_b", "C01_d", "C02_a", "C02_b", "C02_d", "C03_a", "C03_b", "C03_c", "C03_d", "C03_e", "C03_f", "C03_g", "C03_s", "C02_s", "C04_s", "C09_s",
               "C04_a", "C04_b", "C04_c", "C04_e", "C04_f", "C05_a", "C05_b", "C06_a", "C06_b", "C06_d",
               "C07_a", "C07_b", "C07_c", "C07_t", "C07_e", "C08_a", "C08_b", "C08_e", "C08_h", "C08_h2",
-              "C09_a", "C09_a2", "C09_b", "C09_c", "C09_e", "C17_e", "C17_b", "C17_c", "C17_m", "C20_a", "C20_a2", "C20_b", "C20_c", "C20_d"}
+              "C09_a", "C09_a2", "C09_b", "C09_c", "C09_e", "C09_h", "C17_e", "C17_b", "C17_c", "C17_m", "C20_a", "C20_a2", "C20_b", "C20_c", "C20_d"}
 
 \* descriptors used to match violations against the known-findings file
 Tags(g2) == IF g2.resur THEN {"resurrected"} ELSE {}
